@@ -8,7 +8,7 @@ from .front import Unsupported
 from .state import (SV, State, const_sv, truthy, shape, field_type, KIND, CLS, cls_in, new_list, new_dict,
                     new_exception, new_instance, alloc, elem_type, int_of, str_of, val_of)
 from . import spec as SP
-from .state import merge_states, sel_L
+from .state import merge_states, sel_L, tid
 
 
 class Outcome(object):
@@ -101,7 +101,7 @@ class ExecCore(object):
 
     # ------------------------------------------------------------------ site ordinals (not line numbers)
     def _number_sites(self):
-        r = l = c = x = 0
+        r = l = c = x = lit = 0
         for n in ast.walk(self.fi.node):
             pass
         nodes = sorted([n for n in ast.walk(self.fi.node) if hasattr(n, 'lineno')],
@@ -113,6 +113,11 @@ class ExecCore(object):
             elif isinstance(n, (ast.Raise, ast.Assert)):
                 self.raise_sites[id(n)] = x
                 x += 1
+            elif isinstance(n, ast.For) and isinstance(n.iter, (ast.Tuple, ast.List)):
+                # a loop over a literal display is unrolled exactly; it takes no invariant and does not shift the
+                # ordinals the contract's `loops` entries refer to
+                lit += 1
+                self.loop_ordinals[id(n)] = -lit
             elif isinstance(n, (ast.For, ast.While)):
                 self.loop_ordinals[id(n)] = l
                 l += 1
@@ -489,6 +494,9 @@ class ExecCore(object):
         if itv.has_py and isinstance(itv.py, (list, tuple)) and itv.ty is not None and getattr(itv, 'py', None) is not None \
                 and self.is_module_const(itv):
             return ('const', [self.lift_py(x, st) for x in itv.py])
+        known = st.notes.get(('elems', tid(itv.term)))
+        if known is not None and isinstance(Ty.strip_opt(itv.ty), (Ty.TList, Ty.TTuple)) and not isinstance(itv.ty, Ty.TOpt):
+            return ('const', list(known))       # a list / tuple display built in this function: its elements are known
         ty = Ty.strip_opt(itv.ty)
         if isinstance(ty, Ty.TAny):
             # unknown static type: it is an obligation that only lists reach this loop
